@@ -4,6 +4,9 @@ use serde_json::Value as J;
 use std::sync::Arc;
 pub mod c01;
 pub mod c02;
+pub mod c03;
+pub mod c04;
+pub mod sem;
 pub mod c05;
 pub mod c09;
 pub mod c10;
@@ -12,7 +15,7 @@ pub mod c12;
 pub mod c17;
 
 pub fn all() -> Vec<&'static Prop> {
-    vec![&c01::PROP, &c02::PROP, &c05::PROP, &c09::PROP, &c10::PROP, &c11::PROP, &c12::PROP, &c17::PROP]
+    vec![&c01::PROP, &c02::PROP, &c03::PROP, &c04::PROP, &c05::PROP, &c09::PROP, &c10::PROP, &c11::PROP, &c12::PROP, &c17::PROP]
 }
 
 pub fn worker_main(kind: &str, _args: &[String]) -> i32 {
